@@ -102,6 +102,10 @@ func (cj *CookieJar) getCookiesByHost(host string) []*fasthttp.Cookie {
 			i--
 		}
 	}
+	if len(cookies) != len(cj.hostCookies[host]) {
+		// Store the purged slice: the jar must not keep released cookies
+		cj.hostCookies[utils.CopyString(host)] = cookies
+	}
 
 	return cookies
 }
